@@ -954,8 +954,8 @@ getlinkage(enum declkind kind, enum storageclass sc, struct decl *prior, bool fi
 {
 	if (sc & SCSTATIC)
 		return filescope ? LINKINTERN : LINKNONE;
-	if (sc & SCEXTERN || kind == DECLFUNC)
-		return prior ? prior->linkage : LINKEXTERN;
+	if (sc & SCEXTERN || kind == DECLFUNC)  /* 6.2.2p4: a visible prior declaration without linkage does not count */
+		return prior && prior->linkage != LINKNONE ? prior->linkage : LINKEXTERN;
 	return filescope ? LINKEXTERN : LINKNONE;
 }
 
